@@ -29,7 +29,8 @@ CONSTANTS Family,      \* which command universe Next offers: "L" "C" "F" "K" "T
           MaxObj,      \* bound on the number of objects of the family present at once
           MaxDepth,    \* bound on the length of the recorded path to a state
           Wide,        \* TRUE: the larger universe (thorough tier)
-          Deviations,  \* open known findings modelled as the code behaves (none at present)
+          Deviations,  \* open known findings modelled as the code behaves, and the self-test switches of a defect
+                       \* class (SpellingSplit, HealthCheckSplit: never on in a conformance run)
           Emit         \* "none" | "states" | "trans": generator output per distinct state
 
 VARIABLES st,    \* the configuration
@@ -165,19 +166,49 @@ CmdsF ==
 (* (it has a fingerprint, its names cannot be extracted); "kb" is not PEM at all.  A names list is a *)
 (* sequence of tokens: <<>> = none given (use the certificate's own), <<"ov">> = an override,       *)
 (* <<k>> = the names found in certificate k.                                                        *)
+(*                                                                                                  *)
+(* Spellings.  The text of one certificate can be written in several ways which the PEM reader      *)
+(* takes for the same certificate (same DER bytes: same fingerprint, same names): the label of the  *)
+(* block (`X509 CERTIFICATE`, `TRUSTED CERTIFICATE`), CRLF line ends, text before the block, more   *)
+(* blocks after it (a bundle), base64 wrapped at another width.  Others it refuses whatever the     *)
+(* bytes are (no END line, indented base64).  The text is stored as it was written and comes back   *)
+(* verbatim in the AddCertificate that generate_requests / diff emit, so the spelling is part of a  *)
+(* stored certificate (field `sp`, absent = the standard spelling: the records of the universes     *)
+(* without spellings - Sozu.tla, the worker legs - are unchanged).  Whether a spelling is readable  *)
+(* is ONE predicate (SpellOK) used by every arm that can store a certificate; the deviation         *)
+(* `SpellingSplit` is the defect class "the arms judge the same text differently": AddCertificate   *)
+(* refuses re-labelled blocks that ReplaceCertificate stores (self-test: TLC must refute P_C05).    *)
 
 GoodCerts == {"k1", "k2"} \cup (IF Wide THEN {"k3"} ELSE {})
 HasFp(k) == k # "kb"
 Resolvable(k, n) == n # <<>> \/ k \in {"k1", "k2", "k3"}
 Resolved(k, n) == IF n = <<>> THEN <<k>> ELSE n
-Crt(a, k, n) == [a |-> a, k |-> k, n |-> n]
-NewCerts == { <<"k1", <<>> >>, <<"k2", <<>> >>, <<"k2", <<"ov">> >>, <<"kp", <<>> >>, <<"kp", <<"ov">> >>, <<"kb", <<>> >> }
-            \cup (IF Wide THEN { <<"k1", <<"ov">> >>, <<"k3", <<>> >> } ELSE {})
+AltSpellings == {"old", "tru", "crlf", "lead", "bundle", "wrap"}
+BadSpellings == {"noend", "indent"}
+SpOf(x) == IF Has(x, "sp") THEN x.sp ELSE "std"
+SpellOK(sp) == sp \notin BadSpellings
+AddSpellOK(sp) == SpellOK(sp) /\ ("SpellingSplit" \in Deviations => sp \notin {"old", "tru"})
+ReplaceSpellOK(sp) == SpellOK(sp)
+Crt(a, k, n, sp) == IF sp = "std" THEN [a |-> a, k |-> k, n |-> n] ELSE [a |-> a, k |-> k, n |-> n, sp |-> sp]
+\* <<certificate, names, spelling>> a command can carry
+NewCerts == { <<"k1", <<>>, "std">>, <<"k2", <<>>, "std">>, <<"k2", <<"ov">>, "std">>, <<"kp", <<>>, "std">>,
+              <<"kp", <<"ov">>, "std">>, <<"kb", <<>>, "std">> }
+            \cup (IF Wide THEN { <<"k1", <<"ov">>, "std">>, <<"k3", <<>>, "std">> } ELSE {})
+\* ... in another spelling (narrow universe: the first certificate on the first address only)
+SpelledCerts == { <<"k1", <<>>, sp>> : sp \in AltSpellings \cup BadSpellings }
+                \cup (IF Wide THEN { <<"k2", <<"ov">>, "old">>, <<"k2", <<>>, "bundle">>, <<"kp", <<"ov">>, "tru">>,
+                                     <<"kp", <<>>, "crlf">>, <<"k2", <<>>, "noend">> } ELSE {})
+SpelledAddrs == IF Wide THEN Addrs ELSE {"A1"}
+CrtCmd(verb, a, x) == IF x[3] = "std" THEN [verb |-> verb, a |-> a, k |-> x[1], n |-> x[2]]
+                      ELSE [verb |-> verb, a |-> a, k |-> x[1], n |-> x[2], sp |-> x[3]]
+RplCmd(a, old, x) == IF x[3] = "std" THEN [verb |-> "ReplaceCertificate", a |-> a, old |-> old, k |-> x[1], n |-> x[2]]
+                     ELSE [verb |-> "ReplaceCertificate", a |-> a, old |-> old, k |-> x[1], n |-> x[2], sp |-> x[3]]
 CmdsK ==
-  {[verb |-> "AddCertificate", a |-> a, k |-> x[1], n |-> x[2]] : a \in Addrs, x \in NewCerts} \cup
+  {CrtCmd("AddCertificate", a, x) : a \in Addrs, x \in NewCerts} \cup
+  {CrtCmd("AddCertificate", a, x) : a \in SpelledAddrs, x \in SpelledCerts} \cup
   {[verb |-> "RemoveCertificate", a |-> a, fp |-> fp] : a \in Addrs, fp \in GoodCerts \cup {"kp", "nothex"}} \cup
-  {[verb |-> "ReplaceCertificate", a |-> a, old |-> old, k |-> x[1], n |-> x[2]] :
-      a \in Addrs, old \in {"k1", "k2", "nothex"}, x \in NewCerts}
+  {RplCmd(a, old, x) : a \in Addrs, old \in {"k1", "k2", "nothex"}, x \in NewCerts} \cup
+  {RplCmd(a, old, x) : a \in SpelledAddrs, old \in {"k1", "k2"}, x \in SpelledCerts}
 
 ---------------------------------------------------------------------------
 (* TCP / UDP frontends *)
@@ -202,7 +233,7 @@ CmdsM ==
                   \/ (c.verb \in {"RemoveCluster", "RemoveHealthCheck"} /\ c.c = "c1")
                   \/ (c.verb \in {"AddBackend", "RemoveBackend"} /\ c.c = "c1" /\ c.b = "b1" /\ (c.verb = "RemoveBackend" \/ c.w = 0))} \cup
   {c \in CmdsF : c.f.a = "A1" /\ c.f.pk = "prefix" /\ c.f.m = "none" /\ c.f.cl = "deny"} \cup
-  {c \in CmdsK : c.a = "A1" /\ ((c.verb = "AddCertificate" /\ c.n = <<>> /\ c.k \in {"k1", "kp"})
+  {c \in CmdsK : c.a = "A1" /\ SpOf(c) = "std" /\ ((c.verb = "AddCertificate" /\ c.n = <<>> /\ c.k \in {"k1", "kp"})
                                 \/ (c.verb = "RemoveCertificate" /\ c.fp = "k1")
                                 \/ (c.verb = "ReplaceCertificate" /\ c.old = "k1" /\ c.n = <<>> /\ c.k \in {"k2", "kb"}))} \cup
   {c \in CmdsT : c.c = "c1" /\ c.a = "A1" /\ c.t = "t0"}
@@ -234,13 +265,20 @@ D_UpdateListener(s, c) ==                      \* update_*_listener: every field
   IF ~PatchValid(c.p) \/ LAt(s, k, c.a) = {} THEN Err(s)
   ELSE Ok([s EXCEPT !.lst = {IF l.k = k /\ l.a = c.a THEN ApplyPatch(l, c.p) ELSE l : l \in @}])
 
+\* One validator (validate_health_check_config) judges a health check wherever it enters: inline in AddCluster
+\* or through SetHealthCheck.  `h2` stands for the valid configurations at the edge of what the validator lets
+\* through (the concretisations spell it differently), it only enters through SetHealthCheck and comes back
+\* inline in the AddCluster of generate_requests.  Deviation `HealthCheckSplit` (self-test of the class, TLC must
+\* refute P_C05): the inline check refuses what SetHealthCheck stored.
+HcOK(h) == h # "hbad"
+InlineHcOK(h) == HcOK(h) /\ ("HealthCheckSplit" \in Deviations => h # "h2")
 D_AddCluster(s, c) ==                          \* upsert; an invalid inline health check is rejected
-  IF c.v.hc = "hbad" THEN Err(s)
+  IF ~InlineHcOK(c.v.hc) THEN Err(s)
   ELSE Ok([s EXCEPT !.clu = {x \in @ : x.c # c.v.c} \cup {c.v}])
 D_RemoveCluster(s, c) ==
   IF \E x \in s.clu : x.c = c.c THEN Ok([s EXCEPT !.clu = {x \in @ : x.c # c.c}]) ELSE Err(s)
 D_SetHealthCheck(s, c) ==
-  IF c.hc = "hbad" \/ ~\E x \in s.clu : x.c = c.c THEN Err(s)
+  IF ~HcOK(c.hc) \/ ~\E x \in s.clu : x.c = c.c THEN Err(s)
   ELSE Ok([s EXCEPT !.clu = {IF x.c = c.c THEN [x EXCEPT !.hc = c.hc] ELSE x : x \in @}])
 D_RemoveHealthCheck(s, c) ==
   IF ~\E x \in s.clu : x.c = c.c THEN Err(s)
@@ -259,14 +297,16 @@ D_RemoveFront(s, c) ==                         \* by key only
   IF \E f \in s.hfr : SameFKey(f, c.f) THEN Ok([s EXCEPT !.hfr = {f \in @ : ~SameFKey(f, c.f)}]) ELSE Err(s)
 
 D_AddCertificate(s, c) ==                      \* parse + resolve names first; same fingerprint: kept as is
-  IF ~HasFp(c.k) \/ ~Resolvable(c.k, c.n) THEN Err(s)
+  IF ~HasFp(c.k) \/ ~AddSpellOK(SpOf(c)) \/ ~Resolvable(c.k, c.n) THEN Err(s)
   ELSE IF \E x \in s.crt : x.a = c.a /\ x.k = c.k THEN Ok(s)
-  ELSE Ok([s EXCEPT !.crt = @ \cup {Crt(c.a, c.k, Resolved(c.k, c.n))}])
+  ELSE Ok([s EXCEPT !.crt = @ \cup {Crt(c.a, c.k, Resolved(c.k, c.n), SpOf(c))}])
 D_RemoveCertificate(s, c) ==                   \* Ok whether or not it was there
   IF c.fp = "nothex" THEN Err(s) ELSE Ok([s EXCEPT !.crt = {x \in @ : ~(x.a = c.a /\ x.k = c.fp)}])
 D_ReplaceCertificate(s, c) ==                  \* needs certificates on the address; old one may be absent
-  IF c.old = "nothex" \/ ~(\E x \in s.crt : x.a = c.a) \/ ~HasFp(c.k) \/ ~Resolvable(c.k, c.n) THEN Err(s)
-  ELSE Ok([s EXCEPT !.crt = {x \in @ : ~(x.a = c.a /\ x.k \in {c.old, c.k})} \cup {Crt(c.a, c.k, Resolved(c.k, c.n))}])
+  IF c.old = "nothex" \/ ~(\E x \in s.crt : x.a = c.a) \/ ~HasFp(c.k) \/ ~ReplaceSpellOK(SpOf(c)) \/ ~Resolvable(c.k, c.n)
+  THEN Err(s)
+  ELSE Ok([s EXCEPT !.crt = {x \in @ : ~(x.a = c.a /\ x.k \in {c.old, c.k})}
+                              \cup {Crt(c.a, c.k, Resolved(c.k, c.n), SpOf(c))}])
 
 L4At(s, p, c, a) == {f \in s.tfr : f.p = p /\ f.c = c /\ f.a = a}
 D_AddL4Front(s, c) ==                          \* one frontend per (cluster, address)
@@ -319,7 +359,7 @@ GenListener(l) == <<AddLCmd(l)>> \o (IF l.active THEN <<ActivateCmd(l)>> ELSE <<
 GenListeners(s, k) == Cat(MapSet({l \in s.lst : l.k = k}, GenListener))
 AddFCmd(f) == [verb |-> FrontAddVerb(f.p), f |-> f]
 RemFCmd(f) == [verb |-> FrontRemVerb(f.p), f |-> f]
-AddCrtCmd(x) == [verb |-> "AddCertificate", a |-> x.a, k |-> x.k, n |-> x.n]
+AddCrtCmd(x) == CrtCmd("AddCertificate", x.a, <<x.k, x.n, SpOf(x)>>)        \* the stored text, verbatim
 AddL4Cmd(f) == [verb |-> L4Add(f.p), c |-> f.c, a |-> f.a, t |-> f.t]
 RemL4Cmd(f) == [verb |-> L4Rem(f.p), c |-> f.c, a |-> f.a, t |-> f.t]
 AddBkeCmd(b) == [verb |-> "AddBackend", c |-> b.c, b |-> b.b, x |-> b.x, w |-> b.w]
@@ -407,6 +447,7 @@ TypeOK ==
   /\ \A b \in st.bke : Cardinality({y \in st.bke : BKey(y) = BKey(b)}) = 1
   /\ \A f \in st.hfr : Cardinality({g \in st.hfr : SameFKey(f, g)}) = 1 /\ f.pos # "bad"
   /\ \A x \in st.crt : Cardinality({y \in st.crt : y.a = x.a /\ y.k = x.k}) = 1 /\ HasFp(x.k) /\ x.n # <<>>
+                       /\ SpellOK(SpOf(x)) /\ (Has(x, "sp") => x.sp # "std")
   /\ \A f \in st.tfr : Cardinality(L4At(st, f.p, f.c, f.a)) = 1
 
 \* C05: the generated requests are all accepted by an empty instance and rebuild the configuration,
